@@ -22,7 +22,7 @@ class Prop(PropBase):
     theorems = ["Pb.C10." + t for t in (
         "C10_split_concat_time", "C10_assoc", "C10_split_concat_freq", "C10_rejects_empty",
         "C10_rejects_type_mix", "C10_rejects_rate", "C10_rejects_gap", "C10_rejects_labels",
-        "C10_freq_needs_radio")]
+        "C10_freq_needs_radio", "C10_axis_spellings")]
     trusted_base = [
         "PbModel/Concat.lean hand transliteration of transforms.concatenate (tied by correspondence)",
         "u.isclose / u.allclose / Time.isclose tolerances as documented by astropy (parameters of the model)",
@@ -224,7 +224,9 @@ class Prop(PropBase):
         elif form == 3:
             axis_arg = np.int64(ax - z.ndim)
         desc = [self._describe(p, tref) for p in pieces]
-        out = {"pieces": desc, "effective": effective}
+        spelling = f"n:{axis_arg}" if isinstance(axis_arg, str) else f"i:{int(axis_arg)}"
+        cls_is_radio = isinstance(z, pb.RadioSignal)
+        out = {"pieces": desc, "effective": effective, "spelling": spelling, "ndim": int(z.ndim), "radio": cls_is_radio}
         try:
             if case["group"]:
                 g = case["group"]
@@ -256,22 +258,28 @@ class Prop(PropBase):
                 toks.append(base + f"|{d['cf']}|{d['bw']}|{d['n']}|{d['al']}")
             else:
                 toks.append(base + "|-")
-        return [f"c10 {case['axis']} {X.rat(ALPHA)} " + " ".join(toks)]
+        return [f"c10 {case['axis']} {X.rat(ALPHA)} " + " ".join(toks),
+                f"c10 axis {code['ndim']} {int(code['radio'])} {code['spelling']}"]
 
     def model_result(self, case, replies):
         r = replies[0].split()
         if r[0] == "err":
-            return {"err": r[1]}
+            return {"err": r[1], "axis_read": replies[1]}
         out = {"cls": NAMES[int(r[1])], "t0": None if r[2] == "none" else r[2], "rate": r[3], "len": int(r[4])}
         if r[5] != "-":
             cf, bw, n, al = r[5].split("|")
             out.update(cf=cf, bw=bw, n=int(n), al=al, l0=r[6], l1=r[7])
+        out["axis_read"] = replies[1]
         return out
 
     def _ftol(self, d):
         return F(32, 2**52) * (abs(F(d["cf"])) + d["n"] * F(d["bw"])) if "cf" in d else F(0)
 
     def agree(self, case, code, model):
+        # the model reads the spelling of the axis the same way (name / non-negative / negative integer)
+        want_axis = "none" if (case["axis"] == "freq" and not code.get("radio", True)) else case["axis"]
+        if model.get("axis_read") != want_axis:
+            return False
         if "err" in code or "err" in model:
             if case["axis"] == "other" and "err" in code and "err" not in model:
                 # np.concatenate / allclose shape errors for mismatched trailing shapes are outside the label model
